@@ -101,6 +101,9 @@ Outcomes(e, v) ==
 (* the four built-ins that evaluate an expression reference once per element, with that element
    as the current node; keys of the _by family must be all numbers or all strings (every element,
    a sole one included) *)
+SomeOk(SS) == \E o \in SS : o[1] = "ok"
+OkVals(SS) == {o[2] : o \in {p \in SS : p[1] = "ok"}}
+
 (* keys that are opaque text (to_string of a non-string) are strings whose order is not specified *)
 KeysOpaque(ks) == \E i \in 1..Len(ks) : ks[i][1] = "jsontext"
 KeysStrLike(ks) == \A i \in 1..Len(ks) : IsStrLike(ks[i])
